@@ -261,7 +261,7 @@ def run(repo, R):
                     break
     report(R, f, findings)
     if ex is not None:
-        R.floor("Sa", nrec, 7, "overlap recursion stores")
+        R.floor("Sa", nrec, 4, "overlap recursion stores")
     norm_prim_rule(repo, R)
     norm_cont_rule(repo, R)
     # sibling: the asymmetric class uses the same kernel object
